@@ -252,3 +252,114 @@ def checks(tier):
                outside="more entries; SHA-256 names; the index's own trailing checksum (hashed data is symbolic: uninterpreted)",
                assumptions=["sha1 over symbolic data is an uninterpreted function (fresh digest bytes)"], max_decisions=900, tiers=q),
     ]
+
+
+# ---------------------------------------------------------------------------------------------
+# (e) delta chains of mixed kinds: random access == sequential iteration == what was written
+import hashlib as _hl
+import os as _os
+import shutil as _sh
+import struct as _st
+import zlib as _zl
+
+_b02e = checks
+
+
+def _hdr(type_num, size):
+    out = bytearray()
+    c = (type_num << 4) | (size & 0x0F)
+    size >>= 4
+    while size:
+        out.append(c | 0x80)
+        c = size & 0x7F
+        size >>= 7
+    out.append(c)
+    return bytes(out)
+
+
+def _ofs(n):
+    out = [n & 0x7F]
+    n >>= 7
+    while n:
+        n -= 1
+        out.insert(0, 0x80 | (n & 0x7F))
+        n >>= 7
+    return bytes(out)
+
+
+def _sha(type_name, data):
+    return _hl.sha1(type_name + b" %d\0" % len(data) + data).digest()
+
+
+def h_delta_chain(eng, depth=2):
+    """a pack whose objects form a delta chain with a symbolic mix of OFS_DELTA / REF_DELTA hops and a symbolic
+    physical order: Pack.get_raw in any access order, sequential iteration and the written contents agree"""
+    from vf.interpose import scratch
+    from dulwich.pack import Pack, PackData, create_delta
+    contents = [b"base content line\n" * 3]
+    for i in range(depth):
+        contents.append(contents[-1] + b"addition %d\n" % i)
+    kinds = [eng.choice(f"kind{i}", 2) for i in range(depth)]          # 0 = OFS_DELTA, 1 = REF_DELTA
+    ref_first = bool(eng.choice("ref_deltas_first", 2))                 # REF deltas may precede their base physically
+    shas = [_sha(b"blob", c) for c in contents]
+    # physical order: base first, then deltas; optionally REF deltas are moved to the front (allowed by the format)
+    order = list(range(depth + 1))
+    if ref_first:
+        order = [i for i in order if i > 0 and kinds[i - 1] == 1] + [i for i in order if not (i > 0 and kinds[i - 1] == 1)]
+    body = bytearray(b"PACK" + _st.pack(">LL", 2, depth + 1))
+    offsets = {}
+    for i in order:
+        offsets[i] = len(body)
+        if i == 0:
+            body += _hdr(3, len(contents[0])) + _zl.compress(contents[0])
+        else:
+            delta = b"".join(create_delta(contents[i - 1], contents[i]))
+            if kinds[i - 1] == 0:
+                if (i - 1) not in offsets:
+                    eng.assume(False)         # an OFS delta must come after its base
+                body += _hdr(6, len(delta)) + _ofs(offsets[i] - offsets[i - 1]) + _zl.compress(delta)
+            else:
+                body += _hdr(7, len(delta)) + shas[i - 1] + _zl.compress(delta)
+    data = bytes(body) + _hl.sha1(body).digest()
+    d = scratch("c02e")
+    try:
+        base = _os.path.join(d, "pack-test")
+        with open(base + ".pack", "wb") as f:
+            f.write(data)
+        pd = PackData(base + ".pack", object_format=DEFAULT_OBJECT_FORMAT)
+        pd.create_index(base + ".idx", version=2)
+        pd.close()
+        p = Pack(base, object_format=DEFAULT_OBJECT_FORMAT)
+        try:
+            acc = [0, 1, 2][:depth + 1]
+            first = eng.choice("first_access", depth + 1)
+            acc = [first] + [i for i in range(depth + 1) if i != first]
+            for i in acc:
+                try:
+                    t, raw = p.get_raw(shas[i])
+                except Exception as e:
+                    eng.fail(f"random access to object {i} of chain kinds={kinds} ref_first={ref_first} failed: {type(e).__name__}: {e}")
+                    continue
+                eng.prove(t == 3 and raw == contents[i], f"random access returns the written content (object {i}, kinds={kinds})")
+            seq = {o.id: o.as_raw_string() for o in p.iterobjects()}
+            eng.prove(len(seq) == depth + 1, "sequential iteration yields every object")
+            for i in range(depth + 1):
+                from dulwich.objects import sha_to_hex
+                eng.prove(seq.get(sha_to_hex(shas[i])) == contents[i], "sequential iteration agrees with the written content")
+            p.check()
+        finally:
+            p.close()
+    finally:
+        _sh.rmtree(d, ignore_errors=True)
+
+
+def checks(tier):
+    q = ("quick", "thorough")
+    return _b02e(tier) + [
+        KCheck("C02e.delta_chain", h_delta_chain, parts=[{"depth": 2}, {"depth": 3}],
+               encoded=["dulwich.pack.Pack.get_raw/resolve_object/iterobjects/check", "dulwich.pack.PackData.create_index/get_object_at",
+                        "dulwich.pack.DeltaChainIterator/PackIndexer", "dulwich.pack.unpack_object/_decode_delta_base_offset", "dulwich.pack.apply_delta"],
+               bounds="chains of 2 and 3 deltas on a base blob; every hop symbolically OFS_DELTA or REF_DELTA; REF deltas optionally "
+                      "stored before their base; every choice of the first object accessed; real pack and index files",
+               outside="chains deeper than 3; thin packs (external bases); compression levels", tiers=q),
+    ]
